@@ -24,21 +24,22 @@ type Script func(sql string) []pgproto3.BackendMessage
 
 // Server is the fake PostgreSQL server.
 type Server struct {
-	DB       *DB
-	ln       net.Listener
-	mu       sync.Mutex
-	log      []Received
-	rawIn    map[int]*[]byte
-	rawOut   map[int]*[]byte
-	sent     []Sent
+	DB     *DB
+	ln     net.Listener
+	mu     sync.Mutex
+	log    []Received
+	rawIn  map[int]*[]byte
+	rawOut map[int]*[]byte
+	sent   []Sent
 	// StartupAuth, when set, is sent instead of AuthenticationOk and the next client message (password) is read and recorded before continuing.
 	StartupAuth pgproto3.BackendMessage
-	conns    int
-	scripts  map[string]Script
-	Unsupp   []string // statements that hit ErrUnsupported (rig-inconclusive)
-	wg       sync.WaitGroup
-	closed   bool
-	OnResult func(sql string, res *Result) // optional: tamper with results before they are sent
+	conns       int
+	scripts     map[string]Script
+	rawScripts  map[string][]byte
+	Unsupp      []string // statements that hit ErrUnsupported (rig-inconclusive)
+	wg          sync.WaitGroup
+	closed      bool
+	OnResult    func(sql string, res *Result) // optional: tamper with results before they are sent
 }
 
 // NewServer starts a server on a loopback port.
@@ -68,6 +69,16 @@ func (s *Server) Close() {
 func (s *Server) SetScript(sql string, sc Script) {
 	s.mu.Lock()
 	s.scripts[sql] = sc
+	s.mu.Unlock()
+}
+
+// SetRawScript registers raw bytes to be written verbatim in reply to an exact statement text (hostile database responses).
+func (s *Server) SetRawScript(sql string, raw []byte) {
+	s.mu.Lock()
+	if s.rawScripts == nil {
+		s.rawScripts = map[string][]byte{}
+	}
+	s.rawScripts[sql] = append([]byte{}, raw...)
 	s.mu.Unlock()
 }
 
@@ -173,9 +184,9 @@ func (s *Server) accept() {
 }
 
 type teeReader struct {
-	r   io.Reader
-	s   *Server
-	id  int
+	r  io.Reader
+	s  *Server
+	id int
 }
 
 func (t *teeReader) Read(p []byte) (int, error) {
@@ -410,7 +421,17 @@ func (s *Server) serve(id int, c net.Conn) {
 		case *pgproto3.Query:
 			s.mu.Lock()
 			sc := s.scripts[x.String]
+			raw, isRaw := s.rawScripts[x.String]
 			s.mu.Unlock()
+			if isRaw {
+				if be.Flush() != nil {
+					return
+				}
+				if _, err := c.Write(raw); err != nil {
+					return
+				}
+				continue
+			}
 			if sc != nil {
 				for _, bm := range sc(x.String) {
 					be.Send(bm)
